@@ -455,6 +455,27 @@ def eval_bath(case):
             # (1+coth) J > 0 for w > 0; a vanishing C would make the clause vacuous
             viol.append(("ft-corfce/not-positive/%s" % origin,
                          "C(w) <= 0 at some w > 0", None))
+    # the same request made by a caller who works inside a units context: the derived function
+    # must be the same physical function (values and axis read in internal units)
+    try:
+        qr_ = isolation.qr()
+        with qr_.energy_units("1/cm"):
+            ftc = sd.get_FTCorrelationFunction(temperature=T) if origin != "analytic" \
+                else sd.get_FTCorrelationFunction()
+        with qr_.energy_units("int"):
+            Cc = numpy.real(numpy.array(ftc.data))
+            wc = numpy.array(ftc.axis.data)
+        scC = max(float(numpy.max(numpy.abs(Cw))), 1e-300)
+        if Cc.shape != Cw.shape or float(numpy.max(numpy.abs(wc - w))) > 1e-9 * max(1.0, float(numpy.max(numpy.abs(w)))) \
+                or float(numpy.max(numpy.abs(Cc - Cw))) > 1e-9 * scC:
+            viol.append(("ft-corfce/requested-inside-units-context-differs/%s" % origin,
+                         "get_FTCorrelationFunction called inside energy_units('1/cm') differs from "
+                         "the same call outside by %g (scale %g)"
+                         % (float(numpy.max(numpy.abs(Cc - Cw))) if Cc.shape == Cw.shape
+                            else float("inf"), scC), None))
+    except Exception as e:
+        viol.append(("ft-corfce/requested-inside-units-context-raises/%s" % origin,
+                     "%s: %s" % (type(e).__name__, str(e)[:80]), None))
     # history on the same spectral-density object: the relation must hold for whatever
     # temperature is requested, also when it differs from the temperature the object was built
     # with, and when the object has been asked before (1st: T/2, 2nd: 1.5 T, 3rd: T again)
